@@ -575,6 +575,7 @@ void Plan::ScheduleInitialEdges() {
     if (want == kWantToStart && edge->AllInputsReady()) {
       Pool* pool = edge->pool();
       if (pool->ShouldDelayEdge()) {
+        it->second = kWantToFinish;
         pool->DelayEdge(edge);
         pools.insert(pool);
       } else {
